@@ -3,3 +3,4 @@ import AnnVerif.Model.Merkle
 import AnnVerif.Props.C17
 import AnnVerif.Props.C15
 import AnnVerif.Props.C16
+import AnnVerif.Props.C14
